@@ -13,6 +13,9 @@ package main
 // integer widths, int64 shifts by constants, nested field selection, struct literals of
 // translated struct types; and, third generation: slices of integers as lists (len, indexing
 // with the bounds check made explicit — an out-of-range index is a panic —, slices.Sort).
+// Fourth generation: float64 values over the exact software double of Model/F64.lean
+// (+ - * / and comparisons, float64(int), int64(float), Duration.Seconds, constant operands
+// folded exactly as the Go compiler does), and calls of leaves of other packages.
 // Anything else is reported as a broken tie.
 
 import (
@@ -20,6 +23,7 @@ import (
 	"go/ast"
 	"go/constant"
 	"go/token"
+	"math/big"
 	"sort"
 	"strings"
 )
@@ -57,11 +61,20 @@ var leaves = []leafSpec{
 	// third generation: slices of integers (len, checked indexing, slices.Sort)
 	{"base/timemath", "Median", "timemath_Median"},
 	{"base/timemath", "FaultTolerantMidpoint", "timemath_FaultTolerantMidpoint"},
+	// fourth generation: float64 over the software double Model/F64.lean
+	{"base/timemath", "Duration", "timemath_Duration"},
+	{"base/unixutil", "ScaledPPMFromFreq", "unixutil_ScaledPPMFromFreq"},
+	{"base/unixutil", "FreqFromScaledPPM", "unixutil_FreqFromScaledPPM"},
+	{"driver/clocks", "SystemClock.Drift", "clocks_SystemClock_Drift"},
 }
+
+// leaves callable from other packages as pkg.Func (filled while emitting, in table order)
+var globalLeaf = map[string][2]string{}
 
 var leanInt = map[string]string{
 	"int64": "Int64", "Duration": "Int64", "int": "Int64", "int32": "Int32", "int16": "Int16", "int8": "Int8",
 	"uint64": "UInt64", "uint32": "UInt32", "uint16": "UInt16", "uint8": "UInt8", "byte": "UInt8", "bool": "Bool", "error": "Bool",
+	"float64": "F64",
 }
 
 type leafCtx struct {
@@ -125,6 +138,18 @@ func (c *leafCtx) lit(v constant.Value, want string) string {
 	if v.Kind() == constant.Float && constant.ToInt(v).Kind() == constant.Int {
 		v = constant.ToInt(v)
 	}
+	if want == "F64" { // a constant operand of a float expression: the exactly folded value, rounded once
+		if v.Kind() == constant.Int {
+			return "(F64.ofInt " + v.ExactString() + ")"
+		}
+		if v.Kind() == constant.Float {
+			if r, ok := new(big.Rat).SetString(v.ExactString()); ok {
+				return "(F64.ofConst (" + r.Num().String() + ") " + r.Denom().String() + ")"
+			}
+		}
+		c.fail("unsupported float constant %s", v.String())
+		return "(F64.ofInt 0)"
+	}
 	if v.Kind() != constant.Int {
 		c.fail("non-integer constant %s", v.String())
 		return "0"
@@ -157,6 +182,36 @@ func (c *leafCtx) isValue(e ast.Expr) bool {
 	return false
 }
 
+// convType: the Lean type T(x) converts to when fun is a type (an identifier such as int64, or
+// time.Duration), "" when it is a function such as timemath.Duration.
+func convType(fun ast.Expr) string {
+	switch f := fun.(type) {
+	case *ast.Ident:
+		return leanInt[f.Name]
+	case *ast.SelectorExpr:
+		if id, ok := f.X.(*ast.Ident); ok && id.Name == "time" && f.Sel.Name == "Duration" {
+			return "Int64"
+		}
+	case *ast.ParenExpr:
+		return convType(f.X)
+	}
+	return ""
+}
+
+// mentionsVar reports whether e refers to a variable of the function being translated.
+func (c *leafCtx) mentionsVar(e ast.Expr) bool {
+	found := false
+	ast.Inspect(e, func(n ast.Node) bool {
+		if id, ok := n.(*ast.Ident); ok {
+			if _, ok := c.vars[id.Name]; ok {
+				found = true
+			}
+		}
+		return !found
+	})
+	return found
+}
+
 // leanTypeName is the Lean spelling of an internal type name.
 func leanTypeName(t string) string {
 	switch t {
@@ -164,6 +219,8 @@ func leanTypeName(t string) string {
 		return "Int"
 	case "L_Int64":
 		return "(List Int64)"
+	case "F64":
+		return "F64.F64"
 	}
 	return t
 }
@@ -299,7 +356,28 @@ func (c *leafCtx) expr(e ast.Expr, want string) (string, string) {
 		}
 		// conversion T(x) between integer types, a time.Time operation, or a call of another leaf
 		if len(x.Args) == 1 {
-			if lt, ok := leanInt[typeName(x.Fun)]; ok && isIntType(lt) {
+			if lt := convType(x.Fun); lt == "F64" { // float64(x)
+				if v := c.ev.eval(x.Args[0], 0); v.Kind() != constant.Unknown && !c.isValue(x.Args[0]) {
+					return c.lit(v, "F64"), "F64"
+				}
+				a, t := c.expr(x.Args[0], "Int64")
+				switch t {
+				case "F64":
+					return a, "F64"
+				case "Int64":
+					return "(F64.ofInt (" + a + ").toInt)", "F64"
+				}
+				c.fail("unsupported conversion %s -> float64", t)
+				return a, "F64"
+			}
+			if lt := convType(x.Fun); lt != "" && isIntType(lt) {
+				if _, pt := c.peek(x.Args[0]); pt == "F64" { // int64(f): truncation as on amd64
+					a, _ := c.expr(x.Args[0], "F64")
+					if lt != "Int64" {
+						c.fail("unsupported conversion float64 -> %s", lt)
+					}
+					return "(Int64.ofInt (F64.toInt64 " + a + "))", "Int64"
+				}
 				a, t := c.expr(x.Args[0], lt)
 				if t == "" {
 					return a, lt
@@ -316,6 +394,22 @@ func (c *leafCtx) expr(e ast.Expr, want string) (string, string) {
 				a, _ := c.expr(x.Args[0], "Int64")
 				b, _ := c.expr(x.Args[1], "Int64")
 				return "(Go.unixTime " + a + " " + b + ")", "GoTime"
+			}
+			if id, ok := f.X.(*ast.Ident); ok && !c.isValue(f.X) {
+				if gl, ok := globalLeaf[id.Name+"."+f.Sel.Name]; ok { // leaf of another package
+					var args []string
+					for _, a := range x.Args {
+						s, _ := c.expr(a, "")
+						args = append(args, s)
+					}
+					return "(" + gl[0] + " " + strings.Join(args, " ") + ")", gl[1]
+				}
+			}
+			if c.isValue(f.X) && f.Sel.Name == "Seconds" && len(x.Args) == 0 {
+				if recv, t := c.peek(f.X); t == "Int64" { // time.Duration.Seconds()
+					recv, _ = c.expr(f.X, "Int64")
+					return "(F64.durationSeconds (" + recv + ").toInt)", "F64"
+				}
 			}
 			if c.isValue(f.X) {
 				if recv, t := c.peek(f.X); t == "GoTime" {
@@ -352,6 +446,11 @@ func (c *leafCtx) expr(e ast.Expr, want string) (string, string) {
 		}
 		return "(" + ln + " " + strings.Join(args, " ") + ")", c.retOf[name]
 	case *ast.BinaryExpr:
+		if want == "F64" && !c.mentionsVar(x) { // constant float expression: folded exactly by the compiler
+			if v := c.ev.eval(x, 0); v.Kind() == constant.Int || v.Kind() == constant.Float {
+				return c.lit(v, "F64"), "F64"
+			}
+		}
 		switch x.Op {
 		case token.LAND, token.LOR:
 			a, _ := c.expr(x.X, "Bool")
@@ -374,6 +473,19 @@ func (c *leafCtx) expr(e ast.Expr, want string) (string, string) {
 		}
 		a, _ := c.expr(x.X, t)
 		b, _ := c.expr(x.Y, t)
+		if t == "F64" {
+			if fn, ok := map[token.Token]string{token.ADD: "F64.add", token.SUB: "F64.sub", token.MUL: "F64.mul", token.QUO: "F64.div"}[x.Op]; ok {
+				return "(" + fn + " " + a + " " + b + ")", "F64"
+			}
+			if fn, ok := map[token.Token]string{token.EQL: "F64.beq", token.LSS: "F64.lt", token.LEQ: "F64.le", token.GTR: "F64.gt", token.GEQ: "F64.ge"}[x.Op]; ok {
+				return "(" + fn + " " + a + " " + b + ")", "Bool"
+			}
+			if x.Op == token.NEQ {
+				return "(!(F64.beq " + a + " " + b + "))", "Bool"
+			}
+			c.fail("unsupported float operator %s", x.Op)
+			return a, t
+		}
 		switch x.Op {
 		case token.ADD, token.SUB, token.MUL, token.QUO, token.REM:
 			return "(" + a + " " + x.Op.String() + " " + b + ")", t
@@ -697,6 +809,9 @@ func (c *leafCtx) block(stmts []ast.Stmt, tail string, ind string) string {
 func structFields(c0 *leafCtx, structs map[string][][2]string, name string, st *ast.StructType) [][2]string {
 	var fs [][2]string
 	for _, fl := range st.Fields.List {
+		if _, ptr := fl.Type.(*ast.StarExpr); ptr {
+			continue // pointers (shared, possibly cyclic state) are outside the subset
+		}
 		lt := c0.leanType(fl.Type)
 		if inner, ok := fl.Type.(*ast.StructType); ok && len(fl.Names) == 1 {
 			sub := name + "_" + fl.Names[0].Name
@@ -720,7 +835,7 @@ func emitLeaves(repo string, parsed map[string][]*ast.File, fset *token.FileSet,
 	sb.WriteString("/- GENERATED by harness/extract (leaf translator) from /repo on every run — do not edit.\n")
 	sb.WriteString("   Each definition is the Go function of the same name, statement by statement, over\n")
 	sb.WriteString("   fixed-width integers (Go's wrap-around and truncating division are Lean's). -/\n")
-	sb.WriteString("import ScionTime.Model.GoPrelude\nset_option linter.unusedVariables false\nnamespace ScionTime.Gen.Leaf\nopen ScionTime\n\n")
+	sb.WriteString("import ScionTime.Model.GoPrelude\nimport ScionTime.Model.F64\nset_option linter.unusedVariables false\nnamespace ScionTime.Gen.Leaf\nopen ScionTime\n\n")
 	byDir := map[string][]leafSpec{}
 	var dirs []string
 	for _, l := range leaves {
@@ -839,6 +954,10 @@ func emitLeaves(repo string, parsed map[string][]*ast.File, fset *token.FileSet,
 			defs = append(defs, fmt.Sprintf("/-- %s: %s (line %d) -/\n%s :=\n  %s\n", dir, l.fn, pos.Line, sig, body))
 			leafOf[l.fn] = l.lean
 			retOf[l.fn] = ret
+			if fd.Recv == nil {
+				pkgName := dir[strings.LastIndex(dir, "/")+1:]
+				globalLeaf[pkgName+"."+l.fn] = [2]string{l.lean, ret}
+			}
 		}
 		var names []string
 		for n := range used {
